@@ -139,13 +139,13 @@ fn gen(ch: &mut Ch, thorough: bool) -> Option<Case> {
         }
         fields.push((ty, u));
     }
-    // with 3 fields only a bounded number of unused ones
-    if n == 3 && fields.iter().filter(|f| f.1 != Unused::No).count() > 1 {
+    // with 3 fields: a reduced type alphabet and at most one unused field
+    if n == 3 && (fields.iter().filter(|f| f.1 != Unused::No).count() > 1 || fields.iter().any(|f| !matches!(f.0, 0 | 1 | 5 | 7 | 11))) {
         return None;
     }
     let declared_where = ch.flag();
     let entry = *ch.of(&Entry::BOTH);
-    if !thorough && (entry == Entry::Derive || declared_where) && n > 1 {
+    if (entry == Entry::Derive || declared_where) && n > 1 {
         return None;
     }
     // T must be mentioned
